@@ -318,6 +318,7 @@ PROPS = {
                  "unknown parent/child resource, no hooks, empty webhook, parent CRD without status subresource; parents already present in the cluster; non-trivial = the history has a spec-changing update or a delete after a start; distinct = distinct choice sequences"),
         "jobs": [
             {"name": "c20-regress", "pkg": COMPOSITE, "tests": ["TestVerifC20Regressions"]},
+            {"name": "c20-status-gate", "pkg": COMPOSITE, "tests": ["TestVerifC20StatusGate"], "checks": {"quick": 2000, "thorough": 100000}, "shards": {"quick": 1, "thorough": 2}},
             {"name": "c20-composite", "pkg": COMPOSITE, "tests": ["TestVerifC20Composite"],
              "checks": {"quick": 120, "thorough": 6000}, "shards": {"quick": 8, "thorough": 12}, "timeout": {"quick": 900, "thorough": 3400}},
             {"name": "c20-decorator", "pkg": DECORATOR, "tests": ["TestVerifC20Decorator"],
@@ -346,7 +347,7 @@ RULE_ADDENDA = {
     "C17": "Carriers now include the C08 and C09 generators (with stored ControllerRevisions relisted in another order). The concurrent-vs-sequential comparison includes the related-informer subscription counts and the related map of every hook call. Parents in two namespaces.",
     "C18": "Also generated: failed subscribes to a resource discovery does not know yet (installed later); a handler still replaying while an object appears; widgets subscribed through a second served version with the delivered apiVersion checked; handlers with their own resync take 3 ms per event; every informer call runs under a 10 s watchdog. An object deleted and re-created under the same name; at most three watch breaks per case (the reflector's pause doubles). The next LIST after a watch break answered 404 once.",
     "C19": "Single calls also vary what the cache was warmed with (well-formed, unknown field, duplicate field); cache entries: first answer (200, 200 cut off mid-body, 500/404 with an ETag, undecodable 200) x second call about the same parent / another kind / namespace / name x 304/412/200. Calls may repeat their request (answered by the scripted server on its own with current content or a decodable error page, outcome judged). ETag entries that expire before the second call (timeout shorter / longer than the cleanup interval, real constructor); a never-answering hook under an unset, zero and negative timeout (bounded by the 10 s default).",
-    "C20": "Also generated: a customize hook that names related resources, with the related LIST or the customize webhook hanging while the controller is stopped. Reconcile runs under a 30 s watchdog.",
+    "C20": "Also generated: a customize hook that names related resources, with the related LIST or the customize webhook hanging while the controller is stopped. Reconcile runs under a 30 s watchdog. The status-subresource gate on generated multi-version CRDs (1-3 versions, storage flag, status per version): the version the controller names decides.",
     "C05": "Also generated: List-maps unique under the merge key that takes precedence and repeated under a later one (one volume mounted at two paths). Explicit nulls in observed system metadata fields and status.",
 }
 for _k, _v in RULE_ADDENDA.items():
